@@ -275,6 +275,7 @@ static vp::Verdict check(const Case &c, vp::Ctx &ctx)
 
 static void registerAll()
 {
+    vp::guardExit();
     vp::add<Case>("mem_hdr_model", vp::fromEntropy<Case>(decode, 1.5), check, show, parse, 1.0, vp::fuzzFromEntropy<Case>(decode));
 }
 
